@@ -46,11 +46,11 @@ func (e event) coq() string {
 // ---------- abstract values ----------
 
 const (
-	kNone = iota // not a pooled object
-	kObj         // a pooled object, or a value sharing its storage
-	kStruct      // a local struct value whose fields may hold pooled objects
+	kNone   = iota // not a pooled object
+	kObj           // a pooled object, or a value sharing its storage
+	kStruct        // a local struct value whose fields may hold pooled objects
 	kNil
-	kPriv // a private copy of pooled bytes
+	kPriv  // a private copy of pooled bytes
 	kTuple // several results of an inlined call
 )
 
@@ -148,16 +148,16 @@ type sv struct {
 // ---------- the package ----------
 
 type pkgInfo struct {
-	fset     *token.FileSet
-	funcs    map[string][]*ast.FuncDecl // by name (functions and methods)
-	imports  map[string]bool
-	pools    map[string]int // pool expression suffix -> id
-	typePool map[string]int // struct type with a `pool: &x.poolY` literal -> id
-	relevant map[string]bool
+	fset         *token.FileSet
+	funcs        map[string][]*ast.FuncDecl // by name (functions and methods)
+	imports      map[string]bool
+	pools        map[string]int // pool expression suffix -> id
+	typePool     map[string]int // struct type with a `pool: &x.poolY` literal -> id
+	relevant     map[string]bool
 	constructors map[string]bool
-	frames   int
-	budget   int
-	over     bool
+	frames       int
+	budget       int
+	over         bool
 }
 
 var poolIDs = map[string]int{"bytesPool": 0, "bufPool": 1, "poolCompressor": 2, "poolDecompressor": 3}
@@ -247,40 +247,40 @@ type effect struct {
 }
 
 var whitelist = map[string]effect{
-	"Write":         {recv: "W", args: []string{"R"}},
-	"WriteString":   {recv: "W", args: []string{"R"}},
-	"Read":          {recv: "R", args: []string{"W"}},
-	"ReadFull":      {args: []string{"lendR", "W"}},
-	"ReadAtLeast":   {args: []string{"lendR", "W"}},
-	"ReadFrom":      {recv: "W", args: []string{"lendR"}},
-	"Unmarshal":     {args: []string{"R"}},
-	"PutUint16":     {args: []string{"W"}},
-	"PutUint32":     {args: []string{"W"}},
-	"PutUint64":     {args: []string{"W"}},
-	"Uint16":        {args: []string{"R"}},
-	"Uint32":        {args: []string{"R"}},
-	"Uint64":        {args: []string{"R"}},
-	"ConsumeVarint": {args: []string{"R"}},
-	"AppendVarint":  {args: []string{"W"}, result: "arg0"},
-	"MarshalAppend": {args: []string{"W"}, result: "arg0"},
+	"Write":           {recv: "W", args: []string{"R"}},
+	"WriteString":     {recv: "W", args: []string{"R"}},
+	"Read":            {recv: "R", args: []string{"W"}},
+	"ReadFull":        {args: []string{"lendR", "W"}},
+	"ReadAtLeast":     {args: []string{"lendR", "W"}},
+	"ReadFrom":        {recv: "W", args: []string{"lendR"}},
+	"Unmarshal":       {args: []string{"R"}},
+	"PutUint16":       {args: []string{"W"}},
+	"PutUint32":       {args: []string{"W"}},
+	"PutUint64":       {args: []string{"W"}},
+	"Uint16":          {args: []string{"R"}},
+	"Uint32":          {args: []string{"R"}},
+	"Uint64":          {args: []string{"R"}},
+	"ConsumeVarint":   {args: []string{"R"}},
+	"AppendVarint":    {args: []string{"W"}, result: "arg0"},
+	"MarshalAppend":   {args: []string{"W"}, result: "arg0"},
 	"bytes.NewReader": {result: "arg0"},
 	"bytes.NewBuffer": {result: "arg0"},
 	"gzip.NewReader":  {args: []string{"R"}},
 	"NewWriterLevel":  {args: []string{"W"}},
 	"gzip.NewWriter":  {args: []string{"W"}},
-	"ValueOfBytes":  {result: "arg0"},
-	"Bytes":         {result: "recv"},
-	"Len":           {},
-	"Cap":           {},
-	"Reset":         {recv: "Reset"},
-	"Flush":         {recv: "W"},
-	"Close":         {recv: "W"},
-	"Equal":         {args: []string{"R", "R"}},
-	"HasPrefix":     {args: []string{"R", "R"}},
-	"ParseError":    {},
-	"Errorf":        {},
-	"Sprintf":       {},
-	"Name":          {},
+	"ValueOfBytes":    {result: "arg0"},
+	"Bytes":           {result: "recv"},
+	"Len":             {},
+	"Cap":             {},
+	"Reset":           {recv: "Reset"},
+	"Flush":           {recv: "W"},
+	"Close":           {recv: "W"},
+	"Equal":           {args: []string{"R", "R"}},
+	"HasPrefix":       {args: []string{"R", "R"}},
+	"ParseError":      {},
+	"Errorf":          {},
+	"Sprintf":         {},
+	"Name":            {},
 }
 
 // calls through these names on an *untracked* receiver are interface-contract calls and are not inlined
